@@ -431,6 +431,35 @@ def sourceOf (r : Registry) (t : Tmpl) : Option Str := (infoOf r t).map (·.sour
 /-- `Template.code` -/
 def codeOf (r : Registry) (t : Tmpl) : Option Str := (infoOf r t).map (·.code)
 
+/-! ### `ModuleInfo.source` on the paths that hold the template source as bytes
+
+The file paths (file compiled in memory, module directory, a re-loaded module file, `ModuleTemplate` given
+`template_source` bytes) keep the *bytes* of the template; the text they were compiled from is what the lexer made of
+those bytes: `Lexer.decode_raw_stream` removes one utf-8 byte order mark, if the bytes start with one, and decodes the
+rest.  `ModuleInfo.source` has to hand back that same text. -/
+
+abbrev Bytes := List Nat
+
+def bomUtf8 : Bytes := [0xEF, 0xBB, 0xBF]
+
+/-- `if data.startswith(BOM): data = data[len(BOM):]` – what the lexer does, and what `ModuleInfo.source` does when
+the regenerated flag `sourceStripsOneBom` holds -/
+def stripBomOnce (b : Bytes) : Bytes := if bomUtf8.isPrefixOf b then b.drop 3 else b
+
+/-- `data.lstrip(BOM)`: `bytes.lstrip` takes a *set* of byte values – any leading 0xEF / 0xBB / 0xBF goes (one way of
+getting the BOM treatment wrong; only used by the documentation theorem) -/
+def lstripBomBytes (b : Bytes) : Bytes := b.dropWhile (fun x => bomUtf8.contains x)
+
+/-- the bytes `Lexer.decode_raw_stream` decodes -/
+def lexerPayload (b : Bytes) : Bytes := stripBomOnce b
+
+/-- the bytes `ModuleInfo.source` decodes (`exact` = the regenerated flag) -/
+def sourcePayload (exact : Bool) (b : Bytes) : Bytes := if exact then stripBomOnce b else lstripBomBytes b
+
+/-- `ModuleInfo.source` for a template held as bytes; `dec` is the codec of `module._source_encoding` -/
+def sourceOfBytes (dec : Bytes → Option Str) (b : Bytes) : Option Str :=
+  dec (sourcePayload Generated.Paths8.sourceStripsOneBom b)
+
 /-! ### `ModuleInfo.code` on the module-file path: a read of the file at access time
 
 `ModuleInfo.code`: `module_source` if it is not `None`, else `util.read_python_file(self.module_filename)`.  The
